@@ -871,18 +871,28 @@ PROPS = {
                     "C09History: sit_step, run_conforming, run_documented, seek_when_documented, sit_after_header, sane_after_header, offsets_grow; stream `seekhist`.",
     ),
     "C06": dict(
-        level="proof", module="Rsdns.Props.C06",
-        technique="Lean 4 theorems over arbitrary messages (selection soundness of extract_rrset / extract_cname / the flattening loop, answer-section only, round bound) + independent CNAME-chain reference as ground truth",
-        level_text="Proved for ARBITRARY bytes: every datum from_msg returns is the typed data of an answer-section record of type D and "
-                   "of the question's class whose owner NameRef::eq-equals the final name; the TTL is the minimum of a non-empty "
-                   "selection; each CNAME step consumes exactly one matching answer-section CNAME, so at most #answers+1 rounds "
-                   "(loops end in NoAnswer). Equality with the abstract chain specification (order included) is decided on the "
-                   "implementation by a reference the generator computes on the semantic message.",
-        level_note="PARTIAL proof: `rrset_refines` (equality with the chain specification on well-formed messages) is decided by the "
-                   "ground-truth oracle + correspondence (Props/C06.lean header). Trusted: Lean kernel; model of record_set.rs.",
+        level="proof", module="Rsdns.Props.C06", modules=["Rsdns.Props.C06", "Rsdns.Props.C06Refines"],
+        technique="Lean 4 refinement proof: RecordSet::<D>::from_msg EQUALS the CNAME-chain specification on every well-formed NOERROR response (rrset_refines), plus selection soundness over arbitrary bytes + independent CNAME-chain reference as ground truth on the real code",
+        level_text="Proved (Props/C06Refines.lean, rrset_refines): for every well-formed response (MsgAt: any legal compression layout, any "
+                   "letter case, any records in the three sections, any CNAME graph) with QR set, TC clear, one question and extended "
+                   "RCODE 0, and every record type D, from_msg returns exactly what the specification chainS (Spec/ChainSpec.lean: "
+                   "filter the answer records by owner==name (ASCII case folded), type and class; else consume the first CNAME of the "
+                   "name and continue at its target) yields: the final name, the question's class, the minimum TTL, the data of exactly "
+                   "the matching answer records in message order; NoAnswer exactly when the chain ends without such records (loops and "
+                   "dangling targets included). Proved for ARBITRARY bytes (Props/C06.lean): whatever from_msg returns was selected by "
+                   "those rules from the answer section, at most #answers+1 rounds. On the implementation a reference computed by the "
+                   "generator on the semantic message is the ground truth.",
+        level_note="rrset_refines composes: extractRRSet_exact (one pass = filter, TTL = min fold), extractCname_exact (remove-first), "
+                   "flatten_refines (the loop = chain; the fuel-exhausted branch is unreachable), fromMsgPrefix_decode (what "
+                   "the_question_ref / read_answer_headers / read_opt return on MsgAt), chain_semantic (NameRef::eq on references to "
+                   "legal names = == on decoded texts via C08.nameref_eq_decoded; name_ref_at of a CNAME = its target; record_data_at "
+                   "= the RDATA value via C02.rdata_decode). Non-vacuity: the theorem is instantiated on a concrete 35-byte response "
+                   "and the specification is evaluated on a fork/loop example (`example`s by `decide`). Trusted: Lean kernel; model of "
+                   "record_set.rs (validated by the `rrset` stream each run).",
         streams=[dict(name="rrset", impl_oracle=rrset_truth_oracle, quick=30000)],
-        explanation="C06: extractRRSet_sound, extractCname_sound, flatten_sound, readAnswerHeaders_section, rrset_from_answers; "
-                    "stream `rrset` with CNAME chains/forks/loops/dangling targets, case variants, decoys in other sections/classes/types.",
+        explanation="C06: rrset_refines (Props/C06Refines.lean); extractRRSet_sound, extractCname_sound, flatten_sound, readAnswerHeaders_section, "
+                    "rrset_from_answers (Props/C06.lean); stream `rrset` with CNAME chains/forks/loops/dangling targets, case variants, "
+                    "decoys in other sections/classes/types.",
     ),
     "C07": dict(
         level="proof", module="Rsdns.Props.C07",
